@@ -47,3 +47,5 @@ def run(rep, tier):
     rep.rule("L-lifting-insertSpace", "Textgrid.insertSpace on a generic textgrid (including an empty tier): per-tier result equals the tier-level insertSpace, every tier shares the lengthened span")
     for shape in ([("interval", "I", 1), ("point", "E", 0)], [("interval", "E", 0), ("point", "P", 1)]):
         lifting(rep, shape, only="insertSpace")
+    rep.rule("L-lifting-insertSpace-ownspans", "same, on a textgrid whose tiers span only their own entries: the textgrid's span becomes (min, max + d)")
+    lifting(rep, [("interval", "I", 1), ("point", "P", 1)], only="insertSpace", own=True)
